@@ -368,7 +368,14 @@ namespace nmtools::impl
         {
             // prefer for explicit call to dim() first
             if constexpr (meta::has_size_v<array_t>) {
-                return array.size();
+                using size_type = meta::remove_cvref_t<decltype(array.size())>;
+                if constexpr (meta::is_fixed_size_v<array_t> && meta::is_integer_v<size_type>) {
+                    // the member size() of a nested fixed-size array (array<array<T,3>,2>) is its OUTER length,
+                    // not its number of elements; same value and same type as size() for every other fixed-size array
+                    return static_cast<size_type>(meta::fixed_size_v<array_t>);
+                } else {
+                    return array.size();
+                }
             } else if constexpr (meta::is_fixed_size_v<array_t>) {
                 return meta::fixed_size_v<array_t>;
             } else {
